@@ -58,3 +58,89 @@ pub fn run(args: &[String]) -> i32 {
     o.flush();
     0
 }
+
+// ------------------------------------------------------------------ writes that arrive over the mesh
+/// `meshwrite-run --out F`: a runtime subscribes to values of a peer (`[runtime.mesh.subscribe]` of a real
+/// runtime.toml, read by RuntimeConfig::load; the first subscription names a global the program does not declare);
+/// the harness is the peer and publishes one message.  After a few cycles every subscribed global must still hold a
+/// value of its declared type.
+pub fn mesh_run(args: &[String]) -> i32 {
+    use std::io::Write;
+    use trust_runtime::harness::TestHarness;
+    use trust_runtime::scheduler::{ResourceCommand, ResourceRunner, StdClock};
+    use trust_runtime::value::Duration;
+    let mut o = Out::create(arg(args, "--out").expect("--out"));
+    const PROGRAM: &str = "CONFIGURATION Plant\nVAR_GLOBAL\n  Count : DINT := 0;\n  Level : REAL := 0.0;\n  Zi : INT := 0;\n  Zu : USINT := 0;\n  Zb : BOOL := FALSE;\n  Zw : WORD := 0;\n  Zl : LINT := 0;\n  Ticks : DINT := 0;\nEND_VAR\nPROGRAM I1 : Main;\nEND_CONFIGURATION\nPROGRAM Main\nVAR_EXTERNAL Ticks : DINT; END_VAR\nTicks := Ticks + 1;\nEND_PROGRAM\n";
+    let globals: [(&str, &str); 7] = [("Count", "DInt"), ("Level", "Real"), ("Zi", "Int"), ("Zu", "USInt"), ("Zb", "Bool"), ("Zw", "Word"), ("Zl", "LInt")];
+    let values = [json!(7), json!(-1), json!(300), json!(1.5), json!(true), json!("zq"), json!(70000), json!(3000000000u64)];
+    let mut case = 0usize;
+    for (xi, (x, xdecl)) in globals.iter().enumerate() {
+        for (yi, (y, ydecl)) in globals.iter().enumerate() {
+            if xi == yi {
+                continue;
+            }
+            case += 1;
+            let (v1, v2) = (values[case % values.len()].clone(), values[(case / 2 + 3) % values.len()].clone());
+            let port = std::net::TcpListener::bind("127.0.0.1:0").and_then(|l| l.local_addr()).map(|a| a.port()).expect("loopback port");
+            let dir = std::env::temp_dir().join(format!("zq-mesh-{}-{case}", std::process::id()));
+            std::fs::create_dir_all(&dir).expect("temp dir");
+            let toml = crate::resfault::RUNTIME_TOML.replace("@SAVE_MS@", "1000").replace("@WD_ENABLED@", "false").replace("@WD_MS@", "1000").replace("@WD_ACTION@", "halt")
+                .replace("@POLICY@", "halt")
+                .replace("[runtime.mesh]\nenabled = false\nlisten = \"127.0.0.1:5200\"\ntls = false\nauth_token = \"\"\npublish = []\n",
+                         &format!("[runtime.mesh]\nenabled = true\nlisten = \"127.0.0.1:{port}\"\ntls = false\nauth_token = \"zq-mesh-token\"\npublish = []\n\n[runtime.mesh.subscribe]\n\"Peer:a_gone\" = \"ZqGone\"\n\"Peer:b_x\" = \"{x}\"\n\"Peer:c_y\" = \"{y}\"\n"));
+            let p = dir.join("runtime.toml");
+            std::fs::write(&p, &toml).expect("write runtime.toml");
+            let cfg = trust_runtime::config::RuntimeConfig::load(&p);
+            let _ = std::fs::remove_dir_all(&dir);
+            let cfg = match cfg {
+                Ok(c) if c.mesh.enabled && c.mesh.subscribe.len() == 3 => c,
+                other => {
+                    eprintln!("meshwrite-run: runtime.toml with a mesh section was not accepted as written: {:?}", other.map(|c| c.mesh.subscribe.len()));
+                    return 2;
+                }
+            };
+            let rt = TestHarness::from_source(PROGRAM).expect("mesh fixture program").into_runtime();
+            let mut handle = ResourceRunner::new(rt, StdClock::new(), Duration::from_millis(2)).spawn("zq-mesh").expect("spawn");
+            let ctl = handle.control();
+            let mesh = trust_runtime::mesh::start_mesh(&cfg.mesh, "LineA".into(), ctl.clone(), None, None);
+            let snapshot = || -> Option<trust_runtime::debug::DebugSnapshot> {
+                let (tx, rx) = std::sync::mpsc::channel();
+                ctl.send_command(ResourceCommand::Snapshot { respond_to: tx }).ok()?;
+                rx.recv_timeout(std::time::Duration::from_secs(5)).ok()
+            };
+            let ticks = |s: &trust_runtime::debug::DebugSnapshot| match s.storage.get_global("Ticks") { Some(Value::DInt(t)) => *t as i64, _ => -1 };
+            let mut sent = false;
+            if matches!(mesh, Ok(Some(_))) {
+                for _ in 0..250 {
+                    if let Ok(mut peer) = std::net::TcpStream::connect(("127.0.0.1", port)) {
+                        let msg = json!({"type": "publish", "from": "Peer", "token": "zq-mesh-token", "data": {"a_gone": 7, "b_x": v1, "c_y": v2}});
+                        sent = writeln!(peer, "{msg}").is_ok() && peer.flush().is_ok();
+                        break;
+                    }
+                    std::thread::sleep(std::time::Duration::from_millis(20));
+                }
+            }
+            // the update is applied at a cycle boundary: let 12 cycles pass
+            let t0 = snapshot().map(|s| ticks(&s)).unwrap_or(-1);
+            let started = std::time::Instant::now();
+            let mut last = None;
+            while started.elapsed().as_secs() < 5 {
+                last = snapshot();
+                if last.as_ref().map(|s| ticks(s)).unwrap_or(-1) >= t0 + 12 {
+                    break;
+                }
+                std::thread::sleep(std::time::Duration::from_millis(3));
+            }
+            let read = |n: &str| last.as_ref().and_then(|s| s.storage.get_global(n).cloned());
+            let (ax, ay) = (read(x), read(y));
+            let running = last.as_ref().map(|s| ticks(s)).unwrap_or(-1) >= t0 + 12;
+            handle.stop();
+            let _ = handle.join();
+            drop(mesh);
+            o.line(&json!({"a": "MeshWrite", "started": sent, "running": running, "x": x, "xDeclared": xdecl, "xPublished": v1, "xAfter": ax.as_ref().map(|v| format!("{v:?}")), "xTag": ax.as_ref().map(tag),
+                           "y": y, "yDeclared": ydecl, "yPublished": v2, "yAfter": ay.as_ref().map(|v| format!("{v:?}")), "yTag": ay.as_ref().map(tag)}));
+        }
+    }
+    o.flush();
+    0
+}
